@@ -30,9 +30,18 @@ type Topo struct {
 	Workers   int      `json:"workers"`  // >1: the first pipeline processor runs with this many workers (v1: ParallelNode)
 	DLQSize   int      `json:"dlq_size"` // nack window
 	DLQThr    int      `json:"dlq_thr"`
+	// StrictCtx: the fake connector plugins honour the context of their Stop / Teardown calls the way
+	// every real plugin transport does (builtin.runSandbox, a gRPC client): the call does its work and
+	// answers ctx.Err() when it was made with a context that is already cancelled (the Stop / Teardown
+	// calls that end a force-stopped run are made with the cancelled connector context)
+	StrictCtx bool `json:"strict_ctx,omitempty"`
 }
 
 const PipelineID = "pl"
+
+// ShutdownWait is the exit timeout handed to the lifecycle service's Wait by the "shutdown" call
+// (conduit's runtime uses 30 s).
+const ShutdownWait = 30 * time.Second
 
 // gatedDB wraps the in-memory DB: every transaction commit passes the commit gate and is
 // logged together with the durable position of every source connector.
@@ -189,6 +198,7 @@ func Class(err error) string {
 func NewSys(t Topo) (*Sys, error) {
 	ctx := context.Background()
 	w := NewWorld()
+	w.strictCtx = t.StrictCtx
 	logger := log.Nop()
 	mem := &inmemory.DB{}
 	gdb := &gatedDB{DB: mem, w: w}
@@ -317,6 +327,23 @@ func (s *Sys) doCall(ctx context.Context, name string) error {
 			return nil
 		}
 		return s.V2.StopAll(ctx, false)
+	case "shutdown":
+		// the graceful shutdown of the whole engine exactly as conduit's runtime performs it
+		// (pkg/conduit/runtime.go registerCleanupV1/V2): StopAll with the shutdown reason (its
+		// error is only logged there), Wait for the pipelines, then the persister's Wait
+		var err error
+		if s.V1 != nil {
+			s.V1.StopAll(ctx, pipeline.ErrGracefulShutdown)
+			err = s.V1.Wait(ShutdownWait)
+		} else {
+			_ = s.V2.StopAll(ctx, false)
+			err = s.V2.Wait(ShutdownWait)
+		}
+		if err != nil {
+			return err
+		}
+		s.Persister.Wait()
+		return nil
 	case "stopallforce":
 		// forced shutdown (the default engine has no such call: shutdown, then force stop)
 		if s.V1 != nil {
@@ -360,7 +387,7 @@ func (s *Sys) CallCtx(name string, deadline time.Duration) (int, <-chan struct{}
 			err = s.doCall(ctx, name)
 		}()
 		ev := Ev{K: "ret", X: name, A: Class(err), N: id}
-		if name == "stopwait" {
+		if name == "stopwait" || name == "shutdown" {
 			ev.Snap = s.StoredPositions() // the store at the moment the call returned
 		}
 		s.W.Log(ev)
